@@ -179,6 +179,34 @@ empty @is_you(const string[] w) {
 '''
 
 
+CONST_OVERLOADS = '''
+int[] gm = [1, 2];
+empty f(int[] a) { a[0] += 1; write("mutable "); write(a[0]); write(' '); }
+empty f(const int[] a) { write("const "); write(a[0]); write(' '); }
+empty g(const byte[] b) { write("cb "); write(b.length); write(' '); }
+empty g(byte[] b) { b[0] = 'z'; write("mb "); write(b); write(' '); }
+empty @is_you(int n) {
+    int[] m = [n, 2]; const int[] c = [n, 3]; int d[2]; d[0] = n;
+    f(c); f(m); f(c); f(m); f(d); f(gm); f([n, 9]);
+    byte[] mb = ['a', 'b']; const byte[] cb = [n is byte, 'c']; g(cb); g(mb); g("str"); g(mb); g(cb);
+    write(m[0]); write(d[0]); write(gm[0]); writeln();
+}
+'''
+
+NESTED_ARRAYS = '''
+int digits(int n, int depth) {
+    byte buf[4];
+    int[] lit = [n % 10, depth];
+    buf[0] = (n % 10 + 48) is byte;
+    int below = 0;
+    if (n >= 10) { below = digits(n / 10, depth + 1); }
+    write(buf[0]); write(lit[0]); write(lit[1]);
+    return below * 10 + (buf[0] - 48);
+}
+empty @is_you(int n) { writeln(digits(n, 0)); int twice[3]; twice[2] = n; writeln(digits(n + 1, 0) + twice[2]); }
+'''
+
+
 def run_with_guards(lines, args):
     prog = assemble(lines, args)
     g = GuardMonitor()
@@ -285,6 +313,9 @@ def run_shard(spec):
         for k, (tag, prog) in enumerate(idioms.history_programs()):
             if k % (spec['parts'] * 4) == spec['part'] or (tag.startswith('history-two-functions') and k % spec['parts'] == spec['part']):
                 work += [(tag, A.render(prog), a, 2, False) for a in (idioms.HISTORY_ARGS[k % 4], idioms.HISTORY_ARGS[(k + 1) % 4])]
+        if spec['part'] == 2 % spec['parts']:
+            work += [('overloads that differ in constness only', CONST_OVERLOADS, [a], w, False) for a in ('5', '0') for w in (2, 3)]
+            work += [('constant-length arrays in nested activations', NESTED_ARRAYS, [a], w, False) for a in ('123', '7', '0') for w in (2, 4)]
         if spec['part'] == 1:
             work += [('constant indices into strings', STRING_INDEX, a, w, False) for a in (['-v', 'hex'], ['ab', 'c']) for w in (2, 3, 4, 8)]
         # function bodies built from exit shapes (terminal calls all_is_win / all_is_broken included), enumerated and random
